@@ -350,6 +350,37 @@ func checkC03(e *Env) {
 		}
 	})
 
+	// histories: the same hostile queries right after the valid sentence they were derived
+	// from was accepted in the same process (a memo of "the last valid sentence" would
+	// answer some of them from memory)
+	nh := e.pick(48, 600)
+	histOps := newCounter()
+	parallel(nh, e.Workers, func(h int) {
+		g := &seqGen{e: e, r: rng.New(e.Seed, "C03-hist-"+itoa(h)), bufs: map[int][]byte{}}
+		g.memoHunt(5)
+		res, died := e.RunProc(drv, g.ops, nil, 0)
+		if died != "" {
+			notJudged.Inc("history-process-died")
+			return
+		}
+		for i := range res {
+			op, r := &g.ops[i], &res[i]
+			if (op.Fn != "chk" && op.Fn != "val") || r.Panic != "" {
+				continue
+			}
+			histOps.Inc(op.Fn)
+			accepted := (op.Fn == "chk" && r.Err == nil) || (op.Fn == "val" && r.B != nil && *r.B)
+			if !accepted {
+				continue
+			}
+			if st, _ := e.RefValidate(op.Str(), int(op.L)); st != ref.OK {
+				e.Violate(&Violation{What: fmt.Sprintf("after earlier calls in the same process, %s accepted a string that is not a valid %s mnemonic (%s): %s", fnName(op.Fn), ref.Names[op.L], st, preview(op.Str())),
+					Ops: g.ops[:i+1], Expected: "rejected", Observed: r, Detail: "the failing call is the last of ops; the preceding ones are its history"})
+				return
+			}
+		}
+	})
+
 	// accept-set sizes per (language, word count)
 	sizes := newCounter()
 	badGroups := 0
@@ -373,7 +404,7 @@ func checkC03(e *Env) {
 	e.WriteEvidence("exploration", map[string]any{
 		"evaluations":                        stats.Ops,
 		"distinct_nontrivial":                refRejected.Len(),
-		"rule":                               "cases are strings built from reference-valid sentences: all 2048 final words for fixed prefixes (random, zero-leading, all-ones, all-zero), all 2047 substitutions at every position, transpositions, word-count changes 0..30, sentences and words of the other nine lists, case/affix/white-space damage, checksum-bit flips and seeded byte fuzz incl. invalid UTF-8; each is sent to CheckMnemonic and IsMnemonicValid; non-trivial = the independent reference validator (CPython NFKD, split on white space, golden lists, SHA-256) rejects the string, so acceptance would be a violation; distinct by (string, language)",
+		"rule":                               "cases are strings built from reference-valid sentences: all 2048 final words for fixed prefixes (random, zero-leading, all-ones, all-zero), all 2047 substitutions at every position, transpositions, word-count changes 0..30, sentences and words of the other nine lists, case/affix/white-space damage, checksum-bit flips and seeded byte fuzz incl. invalid UTF-8; each is sent to CheckMnemonic and IsMnemonicValid; further, histories in one process (a valid sentence accepted, then the same string under other languages, in other spellings, with one word changed or appended); non-trivial = the independent reference validator (CPython NFKD, split on white space, golden lists, SHA-256) rejects the string, so acceptance would be a violation; distinct by (string, language)",
 		"samples":                            smp.List(),
 		"validations_by_class":               classes.Map(),
 		"accepted_by_class":                  acceptedByClass.Map(),
